@@ -401,6 +401,61 @@ func typeFaults() []fault {
 	return fs
 }
 
+// Arguments of `value` / `position` that are not usable as a number at all (the error names the
+// enum / bit statement, not the value statement).  (`+5`, `0x10` and `5 ` are accepted by goyang
+// and by the model: strconv.ParseUint with base 0 after trimming; no fault.)
+var unusableNumbers = []string{"two", "", "-", "18446744073709551616", "9223372036854775808", "-9223372036854775809", "1.5", "--1", "1e3", "5x"}
+
+var placements = []string{"leaf", "typedef", "union member", "deviate replace"}
+
+// place puts the type statement t at one of the four placements (leaf, typedef, union member,
+// deviate replace).
+func (x *ictx) place(pl int, t *gen.Node) {
+	switch pl {
+	case 0:
+		x.add(x.holder(), nd("leaf", "lf"+x.mk, t))
+	case 1:
+		x.add(x.top(), nd("typedef", "td"+x.mk, t))
+	case 2:
+		x.add(x.holder(), nd("leaf", "lf"+x.mk, nd("type", "union", nd("type", "string"), t)))
+	default:
+		s := x.mainTop()
+		x.add(s, nd("leaf", "dl"+x.mk, nd("type", "string")))
+		x.add(s, nd("deviation", "/"+s.m.Prefix+":dl"+x.mk, nd("deviate", "replace", t)))
+	}
+}
+
+func numberFaults() []fault {
+	var fs []fault
+	for pl := range placements {
+		pl := pl
+		fs = append(fs,
+			fault{"enum with an unusable value: " + placements[pl], func(x *ictx) bool {
+				v := unusableNumbers[x.r.Intn(len(unusableNumbers))]
+				x.place(pl, nd("type", "enumeration", nd("enum", "ok"), nd("enum", "en"+x.mk, nd("value", v))))
+				x.expect("enum with an unusable value: "+placements[pl], "arg:en"+x.mk, "")
+				return true
+			}},
+			fault{"bit with an unusable position: " + placements[pl], func(x *ictx) bool {
+				v := unusableNumbers[x.r.Intn(len(unusableNumbers))]
+				x.place(pl, nd("type", "bits", nd("bit", "ok"), nd("bit", "bi"+x.mk, nd("position", v))))
+				x.expect("bit with an unusable position: "+placements[pl], "arg:bi"+x.mk, "")
+				return true
+			}},
+			fault{"enum value beyond int32: " + placements[pl], func(x *ictx) bool {
+				x.place(pl, nd("type", "enumeration", nd("enum", "ok"), nd("enum", "en"+x.mk, nd("value", "2147483648"))))
+				x.expect("enum value beyond int32: "+placements[pl], "arg:en"+x.mk, "enum-too-large")
+				return true
+			}},
+			fault{"bit name twice: " + placements[pl], func(x *ictx) bool {
+				x.place(pl, nd("type", "bits", nd("bit", "ok"), nd("bit", "ok", nd("description", "ds"+x.mk))))
+				x.expect("bit name twice: "+placements[pl], "parentof:ds"+x.mk, "enum-dup-name")
+				return true
+			}})
+	}
+	return fs
+}
+
 // leafWith adds `leaf lf<mk> { type <t> { subs } }` to a random holder.
 func (x *ictx) leafWith(t string, subs ...*gen.Node) *site {
 	s := x.holder()
@@ -468,6 +523,20 @@ func faults() []fault {
 			s := x.mainTop()
 			x.add(s, nd("belongs-to", "bt"+x.mk, nd("prefix", "bp")))
 			x.expect("belongs-to in a module", "parentof:bt"+x.mk, "unknown-field")
+			return true
+		}},
+		{"module without prefix", func(x *ictx) bool {
+			x.post = func(names, texts []string) ([]string, []string) {
+				return append(names, "mq"+x.mk+".yang"), append(texts, "module mq"+x.mk+" {\n  namespace \"urn:mq\";\n}\n")
+			}
+			x.expect("module without prefix", "arg:mq"+x.mk, "missing-required")
+			return true
+		}},
+		{"submodule without belongs-to", func(x *ictx) bool {
+			x.post = func(names, texts []string) ([]string, []string) {
+				return append(names, "sq"+x.mk+".yang"), append(texts, "submodule sq"+x.mk+" {\n  description d;\n}\n")
+			}
+			x.expect("submodule without belongs-to", "arg:sq"+x.mk, "missing-required")
 			return true
 		}},
 		{"module name with @", func(x *ictx) bool {
@@ -565,6 +634,13 @@ func faults() []fault {
 			x.expect("augment target not found", "arg:/"+s.m.Prefix+":nn"+x.mk, "augment-not-found")
 			return true
 		}},
+		{"augment brings a name that is taken", func(x *ictx) bool {
+			s := x.mainTop()
+			x.add(s, nd("container", "tc"+x.mk, nd("leaf", "d", nd("type", "string"))))
+			x.add(s, nd("augment", "/"+s.m.Prefix+":tc"+x.mk, nd("leaf", "d", nd("type", "int8"))))
+			x.expect("augment brings a name that is taken", "arg:/"+s.m.Prefix+":tc"+x.mk, "duplicate-node")
+			return true
+		}},
 		{"augment of a leaf", func(x *ictx) bool {
 			s := x.mainTop()
 			x.add(s, nd("leaf", "tl"+x.mk, nd("type", "string")))
@@ -593,7 +669,9 @@ func faults() []fault {
 		}},
 		{"negative length", func(x *ictx) bool {
 			x.leafWith("string", nd("length", "-4..3"))
-			x.expect("negative length", "arg:-4..3", "")
+			// (reported as `bad length`: the `negative length` site of types.go cannot be reached,
+			// a length that parses within a uint64 parent has no negative part)
+			x.expect("negative length", "arg:-4..3", "bad-length")
 			return true
 		}},
 		{"enum value too large", func(x *ictx) bool {
@@ -665,6 +743,21 @@ func faults() []fault {
 			return true
 		}},
 
+		{"fraction-digits out of range", func(x *ictx) bool {
+			x.leafWith("decimal64", nd("fraction-digits", "19"))
+			x.expect("fraction-digits out of range", "sub:lf"+x.mk+"/type", "")
+			return true
+		}},
+		{"typedef cycle", func(x *ictx) bool {
+			s := x.top()
+			x.add(s, nd("typedef", "ta"+x.mk, nd("type", "tb"+x.mk)))
+			x.add(s, nd("typedef", "tb"+x.mk, nd("type", "ta"+x.mk)))
+			// which type statement of the cycle is named depends on where it is entered
+			x.expect("typedef cycle", "sub:ta"+x.mk+"/type", "cycle")
+			x.c.Also = []string{"sub:tb" + x.mk + "/type"}
+			return true
+		}},
+
 		// ---- identity layer
 		{"identity with an unknown local base", func(x *ictx) bool {
 			s := x.mainTop()
@@ -707,7 +800,26 @@ func faults() []fault {
 			return true
 		}},
 
+		{"included submodule of a module that is not loaded", func(x *ictx) bool {
+			s := x.mainTop()
+			l := &gen.Module{Name: "sb" + x.mk, Prefix: "sp", Sub: true, ImportPrefix: map[*gen.Module]string{},
+				Owner: &gen.Module{Name: "nm" + x.mk}}
+			l.Body = nd("submodule", l.Name)
+			x.set.Mods = append([]*gen.Module{l}, x.set.Mods...)
+			s.m.Includes = append(s.m.Includes, l)
+			x.expect("included submodule of a module that is not loaded", "arg:nm"+x.mk, "no-such-module")
+			return true
+		}},
+
 		// ---- deviation stage: the errors stand at the deviating module's statement
+		{"deviate not-supported of the module itself", func(x *ictx) bool {
+			s := x.mainTop()
+			x.add(s, nd("leaf", "dl"+x.mk, nd("type", "string")))
+			x.add(s, nd("deviation", "/"+s.m.Prefix+":dl"+x.mk+"/..", nd("deviate", "not-supported")))
+			x.expect("deviate not-supported of the module itself", "kw:module", "deviate-no-parent")
+			x.c.File = s.m.FileName()
+			return true
+		}},
 		{"deviate add default where one exists", func(x *ictx) bool {
 			s := x.mainTop()
 			x.add(s, nd("leaf", "dl"+x.mk, nd("type", "string"), nd("default", "a")))
@@ -756,7 +868,8 @@ func faults() []fault {
 			return true
 		}},
 	}
-	return append(fs, typeFaults()...)
+	fs = append(fs, typeFaults()...)
+	return append(fs, numberFaults()...)
 }
 
 // inject plants fault number kind into the set; returns nil when the set offers no site.
@@ -796,7 +909,11 @@ func judge(c tcase, v verdict) string {
 	case v.NoError:
 		return fmt.Sprintf("single fault (%s) at %v is not reported at all", c.Fault, v.Expected)
 	case !v.Named:
-		return fmt.Sprintf("single fault (%s): no %s error stands at %v (the statement the error is about): %q", c.Fault, c.Class, v.Expected, v.Errors)
+		cls := c.Class
+		if cls == "" {
+			cls = "(any class)"
+		}
+		return fmt.Sprintf("single fault (%s): no %s error stands at %v (the statement the error is about): %q", c.Fault, cls, v.Expected, v.Errors)
 	case v.Elsewhere != "":
 		return fmt.Sprintf("single fault (%s) at %v: an error stands at another statement: %s", c.Fault, v.Expected, v.Elsewhere)
 	}
